@@ -13,6 +13,7 @@ import os.path
 import re
 
 from .p8png import P8PNGFormatter
+from .p8png import get_raw_data_from_p8png_file
 from .base import BaseFormatter
 from ..game import Game
 from ... import util
@@ -197,13 +198,23 @@ def process_includes(lualines, filename=None):
             raise P8IncludeNotFound()
 
         if inc_extension == '.p8' or inc_extension == '.p8.png':
-            p8_fmt_cls = (
-                P8Formatter if inc_extension == '.p8'
-                else P8PNGFormatter)
+            # Take the included cart's code as lines of text: its own
+            # #include lines are not expanded and tabs are delimited by lines,
+            # so the code need not parse by itself (an #include line may sit
+            # inside a table, a comment may run across a tab boundary).
             with open(inc_full_path, 'rb') as fh:
-                inc_game = p8_fmt_cls.from_file(
-                    fh, filename=inc_full_path, do_includes=False)
-                for line in lines_for_tab(inc_game.lua.to_lines(), inc_tab):
+                if inc_extension == '.p8':
+                    inc_lines = _get_raw_data_from_p8_file(
+                        fh, filename=inc_full_path).section_lines.get(
+                            'lua', [])
+                else:
+                    inc_code = get_raw_data_from_p8png_file(
+                        fh, filename=inc_full_path).code
+                    inc_lines = [ln + b'\n' for ln in inc_code.split(b'\n')]
+                    inc_lines[-1] = inc_lines[-1][:-1]
+                    if not inc_lines[-1]:
+                        inc_lines.pop()
+                for line in lines_for_tab(inc_lines, inc_tab):
                     if not line.endswith(b'\n'):
                         # (The code of a .p8.png cart may lack a final newline.)
                         line += b'\n'
